@@ -138,14 +138,86 @@ fn build_call(
     }
 }
 
+/// The body signature exactly as written in the header (field 8), read from the raw bytes: zbus parses
+/// "us" and "(us)" to the same `Signature`, so its own accessors cannot tell them apart.
+fn wire_sig(msg: &zbus::message::Message) -> Option<String> {
+    let b: &[u8] = msg.data().bytes();
+    if b.len() < 16 || b[0] != b'l' {
+        return None;
+    }
+    let flen = u32::from_le_bytes([b[12], b[13], b[14], b[15]]) as usize;
+    let end = 16 + flen;
+    let mut i = 16;
+    let align = |i: usize, n: usize| (i + n - 1) / n * n;
+    while i < end {
+        i = align(i, 8);
+        if i + 4 > end {
+            break;
+        }
+        let code = b[i];
+        let slen = b[i + 1] as usize;
+        let vsig = &b[i + 2..i + 2 + slen];
+        i += 2 + slen + 1;
+        match vsig {
+            b"s" | b"o" => {
+                i = align(i, 4);
+                let l = u32::from_le_bytes([b[i], b[i + 1], b[i + 2], b[i + 3]]) as usize;
+                i += 4 + l + 1;
+            }
+            b"g" => {
+                let l = b[i] as usize;
+                let v = String::from_utf8(b[i + 1..i + 1 + l].to_vec()).ok()?;
+                if code == 8 {
+                    return Some(v);
+                }
+                i += 1 + l + 1;
+            }
+            b"u" => {
+                i = align(i, 4) + 4;
+            }
+            _ => return None,
+        }
+    }
+    Some(String::new())
+}
+
+/// does `sig` consist of exactly one complete type that is a structure?
+fn single_struct(sig: &str) -> bool {
+    if !sig.starts_with('(') {
+        return false;
+    }
+    let mut depth = 0;
+    for (k, c) in sig.char_indices() {
+        match c {
+            '(' => depth += 1,
+            ')' => {
+                depth -= 1;
+                if depth == 0 {
+                    return k == sig.len() - 1;
+                }
+            }
+            _ => {}
+        }
+    }
+    false
+}
+
 fn body_vals(msg: &zbus::message::Message) -> (String, Vec<Val>) {
     let body = msg.body();
-    let sig = body.signature().to_string_no_parens();
+    let sig = wire_sig(msg).unwrap_or_else(|| "?".into());
     if sig.is_empty() {
         return (sig, vec![]);
     }
     match body.deserialize::<zvariant::Structure<'_>>() {
-        Ok(s) => (sig, s.fields().iter().map(Val::from_value).collect()),
+        Ok(s) => {
+            if single_struct(&sig) {
+                // one top-level value which is a structure: zbus hands out its fields
+                let v = Val::from_value(&zvariant::Value::Structure(s));
+                (sig, vec![v])
+            } else {
+                (sig, s.fields().iter().map(Val::from_value).collect())
+            }
+        }
         Err(_) => (sig, vec![Val::Other("undecodable".into())]),
     }
 }
